@@ -68,6 +68,7 @@ class Check:
         self.discharged = 0
         self.samples = []
         self.notes = []
+        self.undecided = []
         self.rules = {}     # rule name -> {'instances': n, 'violations': n, 'what': str}
         self.seed = int(os.environ.get('VERIF_SEED', '0') or 0)
 
@@ -79,6 +80,16 @@ class Check:
                                  '(anchor code moved or vanished: the rule would pass vacuously)' % (name, instances, floor))
         self.obligations += instances
         self.discharged += instances - violations
+
+    def guard(self, what, fn, *args, **kw):
+        """run one sub-check; an engine that cannot decide (budget, unsupported construct) makes the whole check
+        undecided (exit 2) unless another sub-check found a violation -- it never counts as a pass"""
+        from interp import Unsupported, BudgetExceeded
+        try:
+            return fn(*args, **kw)
+        except (Unsupported, BudgetExceeded) as ex:
+            self.undecided.append('%s: %s' % (what, ex))
+            return None
 
     def add(self, finding):
         for f in self.findings:
@@ -151,6 +162,10 @@ class Check:
                 print('  ... %d more in %s' % (len(new) - 40, rp))
             print('VIOLATION property=%s replay=%s' % (self.pid, rp))
             return 1
+        if self.undecided:
+            for u in self.undecided:
+                print('ANALYSIS-BROKEN property=%s: engine cannot decide: %s' % (self.pid, u))
+            return 2
         print('OK property=%s tier=%s obligations=%d discharged=%d known_findings=%d wall=%.1fs' % (
             self.pid, self.tier, self.obligations, self.discharged, len(kf), time.time() - self.t0))
         return 0
